@@ -479,6 +479,18 @@ func vlRun(seed int64, round int, hang *atomic.Bool) (evs []vlEvent, fatal strin
 			r.log(vlEvent{Ev: "ret", P: "c", Res: res})
 		}
 	}()
+	bg.Add(1)
+	go func() { // a second goroutine deleting / re-creating the SAME unrelated channel
+		defer bg.Done()
+		<-start
+		for i := 0; i < 4; i++ {
+			r.log(vlEvent{Ev: "call", P: "x", Op: "chan"})
+			_ = db.DeleteChannel(9)
+			runtime.Gosched()
+			_ = db.CreateChannel(ctx, Channel{Key: 9, Name: "X", DataType: telem.TimeStampT, IsIndex: true})
+			r.log(vlEvent{Ev: "ret", P: "x", Res: "ok"})
+		}
+	}()
 	done := make(chan struct{})
 	go func() { wg.Wait(); close(stop); bg.Wait(); close(done) }()
 	close(start)
@@ -501,12 +513,41 @@ func vlRun(seed int64, round int, hang *atomic.Bool) (evs []vlEvent, fatal strin
 		return nil, "final read: " + err.Error()
 	}
 	r.log(vlEvent{Ev: "final", Cm: cm, Anom: anom})
+	// the channel two goroutines created and deleted concurrently: whatever the serial order
+	// was, the database's view of it must be self-consistent - if it exists it is usable,
+	// and close + reopen shows the same
+	_, xerr := db.RetrieveChannel(ctx, 9)
+	xMem := xerr == nil
+	xTS := c.ts(27) + 12345
+	if xMem {
+		if err := db.Write(ctx, xTS, telem.UnaryFrame[ChannelKey](9, telem.NewSeriesV[telem.TimeStamp](xTS))); err != nil {
+			return nil, "CHAN: channel 9 exists in memory after concurrent create/delete but cannot be written: " + err.Error()
+		}
+	}
 	if err := db.Close(); err != nil {
 		return nil, "close: " + err.Error()
 	}
 	db2, err := Open(ctx, "", r.opts()...)
 	if err != nil {
 		return nil, "reopen: " + err.Error()
+	}
+	_, xerr = db2.RetrieveChannel(ctx, 9)
+	if (xerr == nil) != xMem {
+		_ = db2.Close()
+		return nil, fmt.Sprintf("CHAN: channel 9 exists=%v in memory after concurrent create/delete but exists=%v after close and reopen", xMem, xerr == nil)
+	}
+	if xMem {
+		fr, err := db2.Read(ctx, telem.TimeRangeMax, 9)
+		n := 0
+		if err == nil {
+			for _, sr := range fr.SeriesSlice() {
+				n += int(sr.Len())
+			}
+		}
+		if err != nil || n != 1 {
+			_ = db2.Close()
+			return nil, fmt.Sprintf("CHAN: channel 9: sample written after the concurrent create/delete is not readable after reopen (%d samples, err %v)", n, err)
+		}
 	}
 	r.db = db2
 	cm2, anom2, err := r.content()
